@@ -277,3 +277,22 @@ pub fn var_of(s: Scalar) -> Option<u32> {
         _ => None,
     }
 }
+
+/// Every decision recorded since `n0` under `label` must be *forced* to its recorded outcome by what came
+/// before it (axioms + earlier decisions): i.e. the code takes this branch for every value of the symbols.
+/// Returns the number of decisions checked.
+pub fn all_forced(name: &str, key: &str, n0: usize, label: &str) -> usize {
+    let ds = sx::snapshot_decisions();
+    let ax = eng::axioms();
+    let mut n = 0;
+    for (i, d) in ds.iter().enumerate().skip(n0) {
+        if sx::label_name(d.label) != label {
+            continue;
+        }
+        n += 1;
+        let mut h = ax.clone();
+        h.extend(ds[..i].iter().map(|x| x.cond.clone().with_outcome(x.outcome)));
+        eng::prove_under(&format!("{}: decision {} forced {}", name, i, d.outcome), key, &h, &d.cond.clone().with_outcome(d.outcome));
+    }
+    n
+}
